@@ -188,6 +188,11 @@ def eq0(a):
     a = as_lin(a)
     if is_const(a):
         return TRUE if a[1] == 0 else FALSE
+    # every root is a non-negative integer: a form with non-negative coefficients and constant is zero iff it is <= 0
+    if a[1] >= 0 and all(c >= 0 for _, c in a[2]):
+        return le0(a)
+    if a[1] <= 0 and all(c <= 0 for _, c in a[2]):
+        return le0(neg(a))
     # normalise sign: first root coefficient positive
     if a[2] and a[2][0][1] < 0:
         a = neg(a)
@@ -294,6 +299,10 @@ def ite(c, t, e):
         return e
     if t == e:
         return t
+    # one orientation per condition: `if c {t} else {e}` and `if !c {e} else {t}` are the same term
+    nc = tnot(c)
+    if key(nc) < key(c):
+        c, t, e = nc, e, t
     if is_lin(t) or is_lin(e) or (_numeric_root(t) and _numeric_root(e)):
         t, e = as_lin(t), as_lin(e)
         # guarded-subtraction idiom: if d >= 1 (or d >= 0) { e + d } else { e }
@@ -493,6 +502,8 @@ def show(t, top=True):
         return 'ind' + show(t[1], False)
     if tag == 'lam':
         return 'λ$' + str(t[1]) + '. ' + show(t[2])
+    if tag == 'lam2':
+        return 'λ$' + str(t[1]) + ',$' + str(t[1] + 1) + '. ' + show(t[2])
     if tag == 'match':
         return 'match ' + show(t[1]) + ' {' + '; '.join(
             str(a[0]).split('::')[-1] + (' if ' + show(a[1]) if a[1] is not None else '') + ' => ' + show(a[2]) for a in t[2]) + '}'
@@ -572,11 +583,13 @@ def alpha(t, env=None, depth=0):
         d = t[1]
         env2 = dict(env)
         env2[d] = depth
-        nxt = depth + 1
-        if mentions(t[2], ('bv', d + 1)) and (d + 1) not in env:
-            env2[d + 1] = depth + 1
-            nxt = depth + 2
-        return ('lam', depth, alpha(t[2], env2, nxt))
+        return ('lam', depth, alpha(t[2], env2, depth + 1))
+    if len(t) == 3 and t[0] == 'lam2' and isinstance(t[1], int):
+        d = t[1]
+        env2 = dict(env)
+        env2[d] = depth
+        env2[d + 1] = depth + 1
+        return ('lam2', depth, alpha(t[2], env2, depth + 2))
     if is_lin(t):
         return lin(t[1], {alpha(r, env, depth): c for r, c in t[2]})
     return tuple(alpha(x, env, depth) for x in t)
